@@ -2,9 +2,9 @@ package main
 
 import (
 	"fmt"
-	"strings"
 	"go/token"
 	"go/types"
+	"strings"
 
 	"golang.org/x/tools/go/ssa"
 )
@@ -19,7 +19,7 @@ type builderShape struct {
 	eqIdx    []ssa.Value // results #0 of calculateReuseIndexFor calls
 	reuseIdx []ssa.Value // results #1
 	idxCall  map[ssa.Value]*ssa.Call
-	idxKey   map[ssa.Value]string // "call/role": several loads of the same struct field are one index
+	idxKey   map[ssa.Value]string          // "call/role": several loads of the same struct field are one index
 	removed  map[ssa.Value]ssa.Instruction // index value -> the append(old[:i], old[i+1:]...) that removes it
 	gens     []*ssa.Call                   // generator invocations (dynamic calls of a 2-parameter function value)
 	result   []*ssa.Call                   // appends of a single element to the result list
